@@ -23,7 +23,7 @@ fn main() {
     let p = |id, rule| Property {
         id,
         level: Level::Exploration,
-        quick_runs: 60_000,
+        quick_runs: 120_000,
         thorough_runs: 2_000_000,
         quick_wall_s: 45.0,
         thorough_wall_s: 600.0,
